@@ -50,6 +50,8 @@ func segText(class string, variant int) string {
 		return []string{`c\..\d`, `..\..\w`}[variant%2]
 	case "tdd":
 		return "..."
+	case "long":
+		return strings.Repeat("p/", 520) + "q" // 1041 bytes of short nested names
 	}
 	return class
 }
@@ -165,6 +167,16 @@ func PathsJail(args []string) {
 				}
 				os.MkdirAll(filepath.Join(d, ".thruflux_resumedata"), 0755)
 				os.WriteFile(filepath.Join(d, ".thruflux_resumedata", "victim.sbxmap"), []byte("precious metadata"), 0644)
+				// resume metadata of another download that happens to carry the very name the benign file's
+				// sidecar would have (once as foreign bytes, once as a well-formed sidecar of the same file)
+				_, benign := hostileManifest("none", "")
+				scName := filepath.Base(transfer.SidecarPath(d, "", transfer.VerifSidecarID(benign)))
+				if (n+len(lvl))%2 == 0 {
+					os.WriteFile(filepath.Join(d, ".thruflux_resumedata", scName), []byte("precious metadata of another download"), 0644)
+				} else if sc, err := transfer.CreateSidecar(filepath.Join(d, ".thruflux_resumedata", scName), benign.ID, benign.Size, 8); err == nil {
+					sc.MarkComplete(0)
+					sc.Flush()
+				}
 				os.WriteFile(filepath.Join(d, "victimfile"), []byte("precious data"), 0644)
 			}
 			before := snapshotAround(caseDir, out)
